@@ -591,7 +591,8 @@ int process_patch(const Options& options)
         if (options.verbose || file_to_patch.empty())
             parser.print_header_info(info, out);
 
-        if (file_to_patch.empty())
+        // No questions are to be asked with --force and --batch, a patch without a file to apply it to is skipped.
+        if (file_to_patch.empty() && !options.force && !options.batch)
             file_to_patch = prompt_for_filepath(out);
 
         if (file_to_patch.empty()) {
